@@ -44,5 +44,5 @@ Print Assumptions C03_malformed.
 Example C03_ex :
   let rqs := [ROpenFile ex_path_a; RReadFile 4 2; RStatFile ex_path_d] in
   map fst (fst (fst (fst (serve 10 (ex_cfg false) ex_world conn0 (wires rqs [ex_junk; ex_junk; ex_junk])))))
-  = [be64 11 ++ be64 100; be32 4 ++ [108;108;111;32]; be64 0 ++ be64 30 ++ be64 0 ++ be64 0 ++ [1]].
+  = [be64 11 ++ be64 100; be32 4 ++ [108;108;111;32]; be64 0 ++ be64 30 ++ be64 masked_ctime ++ be64 masked_atime ++ [1]].
 Proof. vm_compute. reflexivity. Qed.
